@@ -6,7 +6,7 @@
 static int trial, scen;
 static _Atomic long ticker_count;
 static _Atomic int stop_ticker, stop_busy;
-static vp_counter_t *c_sleeps, *c_trials, *c_minslack_us, *c_cohort, *c_api[4], *c_cpu_before, *c_busy_yielders, *c_quick_exit;
+static vp_counter_t *c_sleeps, *c_trials, *c_minslack_us, *c_cohort, *c_api[4], *c_cpu_before, *c_busy_yielders, *c_quick_exit, *c_short, *c_shortened;
 
 static const long durations_us[] = {0, 1, 999, 1000, 4900, 5000, 7000, 12000, 20000};
 
@@ -50,6 +50,9 @@ static void do_sleep(fb_slot_t* s, int api, long us) {
                  (unsigned long long)vp_ghost_ticks());
   else
     vp_min(c_minslack_us, el_us - req_us + 1);
+  // the library rounds a request of X ms up to X+1 ticks of 5 ms counted from its tick base; a sleep that lasted less than X ticks
+  // was registered against a base that was missing ticks already consumed from the timer (still legal unless shorter than requested)
+  if (api != 3 && el_us + 500 < (req_us / 1000 + 1) * 5000) vp_add(c_shortened, 1);
   if (g) {
     // (the library may add a courtesy yield after resuming; what must be unique is the sleep registration and its wake-up)
     const uint64_t wk = atomic_load(&g->sleep_wakes) - wake0, rg = atomic_load(&g->sleep_regs) - reg0, so = atomic_load(&g->switches_out) - out0;
@@ -109,6 +112,19 @@ static void* busy_yielder(void* a) {
   return NULL;
 }
 
+// scenario 5: many fibers repeating short sleeps (0.2..4.9 ms, i.e. one or two ticks), so that some sleep is being registered at every
+// phase of every tick - in particular while another kernel thread holds ticks it has read from the timer but not yet accounted
+static void* short_repeater(void* a) {
+  fb_slot_t* s = (fb_slot_t*)a;
+  int i;
+  for (i = 0; i < (int)s->c; ++i) {
+    const long us = 200 + (long)(vp_rand(&s->rng) % 4700);
+    do_sleep(s, (int)(vp_rand(&s->rng) % 3), us);
+    vp_add(c_short, 1);
+  }
+  return NULL;
+}
+
 static void* root(void* x) {
   (void)x;
   const int trials = (int)vp_param("trials", 12);
@@ -125,10 +141,12 @@ static void* root(void* x) {
   c_cpu_before = vp_counter("sleep_after_cpu_bound_phase");
   c_busy_yielders = vp_counter("sleep_with_every_thread_busy_yielding");
   c_quick_exit = vp_counter("sleep_then_exit_immediately");
+  c_short = vp_counter("sleep_short_repeated");
+  c_shortened = vp_counter("sleep_shortened_by_ticks_in_flight");
   uint64_t rng = vp_mix(vp_cfg.seed, 909);
   static fb_slot_t* sl[1024];
   for (trial = 0; trial < trials; ++trial) {
-    scen = only >= 0 ? only : (int)(vp_rand(&rng) % 5);
+    scen = only >= 0 ? only : (int)(vp_rand(&rng) % 6);
     fb_slots_reset();
     int n = 0, i;
     atomic_store(&stop_ticker, 0);
@@ -164,6 +182,12 @@ static void* root(void* x) {
         vp_add(c_busy_yielders, N);
         break;
       }
+      case 5: {  // short sleeps repeated by many fibers: registrations at every phase of the tick
+        const int N = 20 + (int)(vp_rand(&rng) % 150);
+        const int reps = 5 + (int)(vp_rand(&rng) % 15);
+        for (i = 0; i < N; ++i) sl[n++] = fb_spawn(short_repeater, (void*)(intptr_t)reps);
+        break;
+      }
       default: {  // seconds + microseconds
         const int N = 1 + (int)(vp_rand(&rng) % 4);
         for (i = 0; i < N; ++i) sl[n++] = fb_spawn(sleeper, (void*)(intptr_t)(vp_param("long_us", 120000) + (long)(vp_rand(&rng) % 1000)));
@@ -183,7 +207,7 @@ static void* root(void* x) {
     vp_sig(vp_mix(((uint64_t)scen << 16) | (uint64_t)n, (uint64_t)vp_cfg.threads * 977 + (uint64_t)vp_get(c_sleeps)));
     if (trial < 3) vp_sample("sleep trial %d: scenario %d (%s), %d sleeping fibers, %d kernel threads", trial, scen,
                              scen == 0 ? "mixed durations/APIs with ticker" : scen == 1 ? "same-deadline cohort exiting at once" : scen == 2 ? "CPU-bound phase on every thread then usleep(20ms)"
-                             : scen == 3 ? "every thread busy yielding" : "long sleeps", n, vp_cfg.threads);
+                             : scen == 3 ? "every thread busy yielding" : scen == 5 ? "short sleeps repeated by many fibers" : "long sleeps", n, vp_cfg.threads);
     vp_add(c_trials, 1);
     vp_case();
     if (vp_violation_count()) break;
